@@ -22,6 +22,6 @@ PROP = {
 
 TEXT = {
     "technique": "stateful (model-based) property-based testing: operation histories against lock-step reference lists with an invariant sweep after every step, bounded exhaustive enumeration of short histories, ASan for destroyed nodes, bounded walks + watchdog so a corrupt (cyclic) list is a failure, libFuzzer in thorough",
-    "level": "Generated-history exploration: every history of 3 operations (4 in thorough) x 3 nodes x 5 targets over 2 lists is enumerated for the C dlist and for igris::dlist (3.4 M histories each in quick), and hundreds of thousands of random histories (<= 60 ops, <= 12 individually heap-allocated nodes with the link member at a non-zero offset, <= 3 lists) are run for the C dlist, igris::dlist, the C slist / igris::slist and hlist. Operations cover insertion at front/back/before/after/sorted, del, del_init (also twice), moves between lists incl. to a neighbour and to the node itself, insert_instead, pop/unlink (also twice), clear, whole-list splice with empty and non-empty source/destination, destroying linked nodes and non-empty lists. After every operation every traversal macro/iterator (forward, safe, entry, reverse, --end) must yield the reference sequence, size/empty/membership/check/is_correct must agree, every linked node's neighbours must point back, del_init'ed/unlinked nodes must be self-linked, hlist pprev links must be exact.  Separate targets run the same operations on worlds of 258..300 nodes (lists longer than 255 elements; full checks every 16th step and at the end). Nothing is established beyond the explored histories. The C++ lists are also traversed through a const reference, and the bounded walkers dlist_check / dlist_check_reversed are called with the tight bound n+1.",
+    "level": "Generated-history exploration: every history of 3 operations (4 in thorough) x 3 nodes x 5 targets over 2 lists is enumerated for the C dlist and for igris::dlist (3.4 M histories each in quick), and hundreds of thousands of random histories (<= 60 ops, <= 12 individually heap-allocated nodes with the link member at a non-zero offset, <= 3 lists) are run for the C dlist, igris::dlist, the C slist / igris::slist and hlist. Operations cover insertion at front/back/before/after/sorted, del, del_init (also twice), moves between lists incl. to a neighbour and to the node itself, insert_instead, pop/unlink (also twice), clear, whole-list splice with empty and non-empty source/destination, destroying linked nodes and non-empty lists. After every operation every traversal macro/iterator (forward, safe, entry, reverse, --end) must yield the reference sequence, size/empty/membership/check/is_correct must agree, every linked node's neighbours must point back, del_init'ed/unlinked nodes must be self-linked, hlist pprev links must be exact.  Separate targets run the same operations on worlds of 258..300 nodes (lists longer than 255 elements; full checks every 16th step and at the end). Nothing is established beyond the explored histories. The C++ lists are also traversed through a const reference, and the bounded walkers dlist_check / dlist_check_reversed are called with the tight bound n+1. Cursor walks pass side-effecting expressions to the *_entry macros, and std::prev / std::advance / std::next / std::distance are applied to the list iterators.",
     "note": "Trusted: the harness' vector-of-ids reference model; self-moves may either keep the node in place or leave it unlinked (both are well-formed; the model adopts what happened); nodes orphaned by a splice are modelled as the head-less ring the code leaves; -fsanitize=null,object-size are off because member.h/memberxx.h compute offsets as &((T*)0)->m; igris::slist's const iterators and dlist first_entry/last_entry/cast_out do not compile and are not exercised.",
 }
